@@ -1,3 +1,64 @@
-import GarbleVerif.Model.SrcSem
+import GarbleVerif.Proofs.BitCore
+/-!
+# C01 — the compiled circuit returns exactly the value the source program denotes
+
+**Proved (core fragment, all widths, all inputs).** `Bit.bitExpr` / `Bit.bitStmts`
+(Model/BitSem.lean) follow `compile.rs` on Booleans and integers of every width — literals,
+variables, `!`, unary `-`, `+`, `-`, `<`, `>`, `==`, `!=`, `&`, `|`, `^` on Booleans, `&&`, `||`,
+`if`/`else`, blocks with `let` — computing, for given inputs, the value every output wire carries
+and the abstract state of the panic record. The operators are the bit-list functions of
+Model/Arith.lean (tied to `CircuitBuilder` by C03/C04, proved exact in Proofs/Arith*.lean).
+
+`C01_core`: for every program body of the fragment, every environment of well-typed values and
+every fuel, if the source semantics return a value then the bit-level evaluation returns exactly
+the encoding of that value and no panic; if they fail, it reports exactly that failure (the first
+failing operation: C02 at program level for the fragment). Both directions together: the panic
+flag is set iff the source execution fails.
+
+**Explored (whole language).** Everything outside the fragment (casts, `*`, `/`, `%`, shifts,
+bitwise operators on integers, aggregates, `match`, loops, mutation, functions) is compared on
+generated programs on every run: circuit output against `Src.evalStmts`, and — for programs of
+the fragment — against `Bit.bitStmts` as well, which ties the model in this theorem to the code.
+-/
 namespace GV
+namespace Bit
+open Src
+
+/-- **C01 / C02 for the core fragment** -/
+theorem C01_core (prog : Prog) (fuel : Nat) (env : Src.Env) (benv : BEnv) (body : StmtList)
+    (t : STy) (bits : List Bool) (p : P)
+    (henv : EnvRel env benv) (hbits : bitStmts benv body = some (t, bits, p)) :
+    (∀ v env', evalStmts fuel prog env body = .ok (v, env') →
+        v.hasType t.toTy = true ∧ bits = v.encode t.toTy ∧ p = none) ∧
+    (∀ k, evalStmts fuel prog env body = .error (.panic k) → p = some k) := by
+  have h := (core_all prog fuel fuel (Nat.le_refl _)).2 body env benv t bits p henv hbits
+  refine ⟨fun v env' hv => ?_, h.2⟩
+  obtain ⟨_, hr, hp⟩ := h.1 v env' hv
+  exact ⟨hr.hasType_encode.1, hr.hasType_encode.2, hp⟩
+
+/-- the same for expressions; evaluation leaves the environment unchanged (the fragment has no
+assignments) -/
+theorem C01_core_expr (prog : Prog) (fuel : Nat) (env : Src.Env) (benv : BEnv) (e : Expr)
+    (t : STy) (bits : List Bool) (p : P)
+    (henv : EnvRel env benv) (hbits : bitExpr benv e = some (t, bits, p)) :
+    (∀ v env', evalExpr fuel prog env e = .ok (v, env') →
+        env' = env ∧ v.hasType t.toTy = true ∧ bits = v.encode t.toTy ∧ p = none) ∧
+    (∀ k, evalExpr fuel prog env e = .error (.panic k) → p = some k) := by
+  have h := (core_all prog fuel fuel (Nat.le_refl _)).1 e env benv t bits p henv hbits
+  refine ⟨fun v env' hv => ?_, h.2⟩
+  obtain ⟨he, hr, hp⟩ := h.1 v env' hv
+  exact ⟨he, hr.hasType_encode.1, hr.hasType_encode.2, hp⟩
+
+/-- non-vacuity: `x + 1u8` with `x = 255`: the source semantics fail with Overflow, and so does the
+bit-level evaluation; with `x = 7` both give 8 -/
+example : bitExpr [("x", .int .u8, enc .u8 255)] (.bin .add (.int .u8) (.var "x") (.int 1 .u8)) =
+    some (.int .u8, enc .u8 0, some .overflow) := by decide
+
+example : bitExpr [("x", .int .u8, enc .u8 7)] (.bin .add (.int .u8) (.var "x") (.int 1 .u8)) =
+    some (.int .u8, enc .u8 8, none) := by decide
+
+example : EnvRel [("x", .int 7)] [("x", .int .u8, enc .u8 7)] :=
+  EnvRel.cons ⟨by decide, rfl⟩ EnvRel.nil
+
+end Bit
 end GV
